@@ -2,18 +2,21 @@
 Whole-trace correspondence of the world model (Ssm.v + SsmWorld.v) with StateMachineAccessPoint under a scripted
 medium, and the direct predicate of the property on the implementation trace."""
 import ssm_common as S
+import iocb_common as I
+from core import Case
 
 PROP = 'C04'
-COQ_TARGETS = ['theories/SsmFacts.vo', 'theories/SsmC04.vo', 'theories/SsmC04t.vo', 'theories/SsmC04s.vo', 'theories/SsmC05.vo']
-COQ_IMPORTS = S.COQ_IMPORTS
+COQ_TARGETS = ['theories/SsmFacts.vo', 'theories/SsmC04.vo', 'theories/SsmC04t.vo', 'theories/SsmC04s.vo', 'theories/SsmC04w.vo', 'theories/SsmC04h.vo', 'theories/SsmC05.vo', 'theories/IocbFacts.vo']
+COQ_IMPORTS = 'From Bac Require Import Base Iocb Ssm SsmWorld.'
 RULE = ('cases: one confirmed request between two nodes (max-APDU 50..206, all 16 segmentation pairs, windows 1..8, retries 0..3, '
         'timeouts 250..3000 ms, payloads around every segment boundary, every kind of answer incl. silence and a slow application) under '
         'no fault, one or two faults (drop, duplicate, delay 125/500/2000 ms, late duplicate) at seeded frame indices or total silence '
-        'from a frame on; plus every single fault at every frame of two fixed transfers.  Compared: every frame (header, length, payload '
+        'from a frame on; plus every single fault at every frame of two fixed transfers; plus IOCB histories on a real ApplicationIOController (1..8 IOCBs over 1..3 addresses, several '
+        'queued to one address, requests refused below, acks / errors from below, client aborts, batches of deferred functions) against Iocb.run_ops.  Compared: every frame (header, length, payload '
         'checksum, APDU length), every application event, every timer expiry (instant, owner, state), exception classes, residue.  '
         'non-trivial = at least one frame on the wire; distinct by scenario.')
 TRUSTED = S.TRUSTED
-ASSUMPTIONS = S.ASSUMPTIONS + ['the IOCB layer (iocb.py, app.ApplicationIOController) is checked by the direct predicate only, not modelled']
+ASSUMPTIONS = S.ASSUMPTIONS + ['IOCB layer: priorities all equal, wait_time = 0, IOCB numbers submitted once; IOChain/IOGroup/ClientController not modelled']
 
 
 def fixed_grid(rng):
@@ -44,6 +47,11 @@ def cases(rng, tier):
             for kb in ('drop', 'delay500'):
                 out.append(S.scenario_case({'nodes': nodes, 'requests': [req], 'faults': {i: list(S.FAULT_KINDS[ka]), j: list(S.FAULT_KINDS[kb])}},
                                            'two-fault-grid'))
+    for _ in range(1500 if tier == 'thorough' else 250):
+        ops, n = I.gen_history(rng)
+        exp, det = I.run_history(ops, n)
+        out.append(Case('iocb-history', 'Iocb.run_ops %d %s' % (n, I.coq_ops(ops).replace('OSubmit', 'Iocb.OSubmit').replace('OConfirm', 'Iocb.OConfirm').replace('OAbort', 'Iocb.OAbort').replace('ORun', 'Iocb.ORun')),
+                        exp, key=('iocb', repr(ops)), nontrivial=any(o[0] == 'submit' for o in ops), desc={'ops': ops, 'n': n}))
     return out
 
 
@@ -71,6 +79,20 @@ def direct(rng, tier, focus=()):
             f['max_nsegs'] = S.max_transfer_segments(tr)
             f['spec'] = spec
         failures.extend(fs)
+    nh = 0
+    for _ in range(20000 if big else 1500):
+        ops, n = I.gen_history(rng)
+        fs, det = I.check_drained(ops, n)
+        nh += 1
+        failures.extend(fs)
+    import core as _core, json as _json
+    for e in _core.load_findings('C04'):
+        ops = ((e.get('replay') or {}).get('failure') or {}).get('ops')
+        if e.get('status') == 'known' and ops:
+            fs, det = I.check_drained(ops, 1 + max(o[1] for o in ops if o[0] == 'submit'))
+            failures.extend(fs)
+    stats['evaluations'] += nh
+    stats['iocb_histories'] = nh
     io_f, io_n = iocb_check(rng, 60 if big else 12)
     failures.extend(io_f)
     stats['evaluations'] += io_n
@@ -87,12 +109,31 @@ def classify(f):
     if k == 'exception' and f.get('class') == 'RuntimeError' and f.get('where') in ('rx', 'timer'):
         if str(f.get('msg', '')).startswith('invalid segment number'):
             return 'C04-K2'
+    if k == 'iocb-answer-for-other-request' and f.get('client_aborts'):
+        # known: after a client-side abort of the active IOCB the next one is started while the aborted request's
+        # transaction is still open below; its late answer is matched by address only
+        return 'C04-K4'
     if k in ('livelock', 'no-outcome', 'residue-transactions', 'residue-timers', 'multiple-outcomes') and f.get('max_nsegs', 0) > 256:
         return 'C04-K3'
     return None
 
 
 def replay(payload):
+    f = payload.get('failure') or {}
+    ops = f.get('ops') or (((payload.get('broken') or [{}])[0].get('minimal_case') or {}).get('desc') or {}).get('ops') \
+        if isinstance((payload.get('broken') or [{}])[0], dict) else f.get('ops')
+    if ops:
+        n = 1 + max([o[1] for o in ops if o[0] == 'submit'] + [0])
+        exp, det = I.run_history(ops, n)
+        print('IOCB history:', ops)
+        print('implementation log:', det['log'], 'states', det['states'], 'queues', det['queues'])
+        fs, _ = I.check_drained(ops, n)
+        for x in fs:
+            print('  FAIL', {k: v for k, v in x.items() if k != 'ops'}, '->', classify(x))
+        import core
+        got, err = core.coq_eval('From Bac Require Import Base Iocb.', 'run_ops %d %s' % (n, I.coq_ops(ops)))
+        print('model observation equals implementation observation:', got == exp)
+        return
     S.replay_generic(payload, S.check_c04, 'C04')
 
 
